@@ -322,3 +322,13 @@ def run(facts, rep, ctx):
     from . import round4
     round4.tb13(facts, rep)
 
+
+
+_run_before_round5 = run
+
+
+def run(facts, rep, ctx):
+    """rules added after the fourth seeding round (rules/round5.py)"""
+    _run_before_round5(facts, rep, ctx)
+    from . import round5
+    round5.et1(facts, rep)
